@@ -725,7 +725,7 @@ func finish(c *Ctx) {
 	}
 	fmt.Printf("%s %s: evaluations=%d distinct_nontrivial=%d exhaustive=%v wall=%.1fs violations=%d\n",
 		c.Spec.ID, c.Tier, c.evals.Load(), nd, c.exhaustive, wall, len(c.viols))
-	if c.evals.Load() == 0 || nd < 2 {
+	if len(c.viols) == 0 && (c.evals.Load() == 0 || nd < 2) {
 		Infra("vacuous run: evaluations=%d distinct_nontrivial=%d", c.evals.Load(), nd)
 	}
 	if len(c.viols) > 0 {
